@@ -6,6 +6,7 @@ CONSTANTS
   PatchKinds = {"plain2", "loop", "bytes"}
   FnLayouts = {"none", "one"}
   EndSyms = {TRUE, FALSE}
+  NoSyms = {FALSE}
   AnnModes = {"none", "blk"}
   WithProxyDel = TRUE
   CfiLayouts = {"none"}
